@@ -168,6 +168,102 @@ def eval_index_group(item):
     return cnt, probs
 
 
+# ======================================================================= part (i-b)
+def set_partitions(n):
+    """restricted growth strings: every way of letting n argument positions share arrays"""
+    def rec(i, cur, mx):
+        if i == n:
+            yield tuple(cur)
+            return
+        for v in range(mx + 2):
+            yield from rec(i + 1, cur + [v], max(mx, v))
+    yield from rec(0, [], -1)
+
+
+def eval_repeat_group(item):
+    """The public core blockwise over real (lazy) arrays where ONE array may sit in several argument positions with
+    different index patterns (outer(a, a), f(m_ij, m_ji)): the key function of the operation that cubed builds is
+    read from the plan and compared with the reference for every output block."""
+    cases, tier = item
+    import cubed
+    import cubed.array_api as xp
+    from cubed.core.ops import blockwise as core_blockwise
+    from cubed.primitive.blockwise import ChunkKey
+
+    cnt = Counter()
+    probs = []
+    seen = set()
+    spec = cubed.Spec(allowed_mem=2_000_000, reserved_mem=0)
+    for out, args, new in cases:
+        if new or len(args) < 2:
+            continue
+        used = sorted(set(out) | set().union(*map(set, args)))
+        contracted = [s for s in used if s not in out]
+        for nblk in ((2, 3) if tier == "quick" else (1, 2, 3)):
+            dims = {s: (1 if s in contracted else nblk) for s in used}
+            size = {s: 2 * dims[s] if s not in contracted else 2 for s in used}
+            for part in set_partitions(len(args)):
+                if len(set(part)) == len(args):
+                    pass  # all distinct: the baseline
+                # positions sharing an array need the same shape and block grid
+                ok = True
+                for g in set(part):
+                    pos = [k for k, v in enumerate(part) if v == g]
+                    shp = {tuple((size[t], dims[t]) for t in args[k]) for k in pos}
+                    if len(shp) != 1:
+                        ok = False
+                if not ok:
+                    continue
+                arrs = {}
+                for g in set(part):
+                    k0 = part.index(g)
+                    shape = tuple(size[t] for t in args[k0])
+                    arrs[g] = xp.ones(shape, dtype="float64", chunks=tuple(2 for _ in shape), spec=spec)
+                pairs = []
+                for k, ind in enumerate(args):
+                    pairs += [arrs[part[k]], ind]
+                case = dict(part="repeat", out=out, args=args, new=new, sharing=part, nblk=nblk)
+                cnt["repeat_expressions"] += 1
+                try:
+                    y = core_blockwise(lambda *xs: xs[0], out, *pairs, dtype="float64", align_arrays=False)
+                    dag = y._plan.dag if hasattr(y, "_plan") else cubed.plan(y, optimize_graph=False).dag
+                    ops = [d["primitive_op"] for n, d in dag.nodes(data=True) if "primitive_op" in d and y.name in dag.successors(n)]
+                    kf = ops[0].pipeline.config.back_key_function
+                except ValueError:
+                    cnt["repeat_refused"] += 1
+                    continue
+                except Exception as e:
+                    if "crash" not in seen:
+                        seen.add("crash")
+                        probs.append((dict(kind="index-crash", exc=type(e).__name__), case, f"core blockwise raised {type(e).__name__}: {str(e)[:100]} for {case}"))
+                    continue
+                nb = [tuple(dims[t] for t in ind) for ind in args]
+                for oc in itertools.product(*[range(dims[t]) for t in out]):
+                    exp = ref_keys(out, args, new, dims, nb, oc)
+                    if exp == "ValueError":
+                        break
+                    cnt["repeat_blocks"] += 1
+                    if len(set(part)) < len(args):
+                        cnt["nontrivial"] += 1
+                    want = [(arrs[part[k]].name, c) for k, (_, c, _) in enumerate(exp)]
+                    try:
+                        gf = kf(ChunkKey(y.name, oc))
+                        flat = []
+                        for a in gf.args:
+                            while isinstance(a, (list, tuple)) and not hasattr(a, "coords"):
+                                a = a[0]
+                            flat.append((a.name, tuple(a.coords)))
+                    except Exception as e:
+                        flat = f"{type(e).__name__}: {str(e)[:80]}"
+                    if flat != want and "repeat-mismatch" not in seen:
+                        seen.add("repeat-mismatch")
+                        rel = {n: f"array{g}" for g, n in ((g, arrs[g].name) for g in arrs)}
+                        show = lambda L: [(rel.get(n, n), c) for n, c in L] if isinstance(L, list) else L
+                        probs.append((dict(kind="wrong-block-address", repeated_array=len(set(part)) < len(args)), dict(case, out_coords=oc),
+                                      f"out block {oc}: blockwise over argument arrays {['array%d' % v for v in part]} addresses {show(flat)}, reference {show(want)}: {case}"))
+    return cnt, probs
+
+
 # ======================================================================= part (ii)
 class Term:
     __slots__ = ("t",)
@@ -541,7 +637,9 @@ def eval_tree_group(item):
 def replay_case(case):
     def tup(x):
         return tuple(tup(v) for v in x) if isinstance(x, list) else x
-    if case["part"] == "index":
+    if case["part"] == "repeat":
+        _, probs = eval_repeat_group(([(tup(case["out"]), tup(case["args"]), tup(case["new"]))], "thorough"))
+    elif case["part"] == "index":
         _, probs = eval_index_group(([(tup(case["out"]), tup(case["args"]), tup(case["new"]))], "thorough"))
     else:
         def spec_of(s):
@@ -559,6 +657,14 @@ def run(ctx):
         tot.update(cnt)
         for sig, case, text in probs:
             ctx.problem(sig, case, text)
+    rc = [c for c in ic if not c[2] and len(c[1]) >= 2]
+    for cnt, probs in ctx.pmap(eval_repeat_group, [(rc[i::32], tier) for i in range(32) if rc[i::32]]):
+        tot.update(cnt)
+        for sig, case, text in probs:
+            ctx.problem(sig, case, text)
+    ctx.set("repeated_array_expressions", tot["repeat_expressions"])
+    ctx.set("repeated_array_blocks_checked", tot["repeat_blocks"])
+    ctx.set("repeated_array_refused", tot["repeat_refused"])
     specs = tree_specs(2 if tier == "quick" else 3)
     variants = [((2, 3), (2, 3)), ((2,), (3,)), ((1, 2), (1, 2))] if tier == "quick" else [((2, 3), (2, 3)), ((2,), (3,)), ((1, 2), (1, 2)), ((2, 2, 2), (2, 2, 2)), ((3, 1), (2, 1))]
     ng = 64
@@ -566,7 +672,7 @@ def run(ctx):
         tot.update(cnt)
         for sig, case, text in probs:
             ctx.problem(sig, case, text)
-    ctx.set("evaluations", tot["blocks"] + tot["fused-evaluations"] + tot["legacy-fuse-evaluations"])
+    ctx.set("evaluations", tot["blocks"] + tot["repeat_blocks"] + tot["fused-evaluations"] + tot["legacy-fuse-evaluations"])
     ctx.set("distinct_nontrivial", tot["nontrivial"] + tot["fused-evaluations"])
     ctx.set("index_expression_instances", tot["expressions"])
     ctx.set("index_output_blocks_checked", tot["blocks"])
@@ -576,7 +682,7 @@ def run(ctx):
     ctx.set("fused_evaluations", tot["fused-evaluations"])
     ctx.set("legacy_fuse_evaluations", tot["legacy-fuse-evaluations"])
     ctx.set("rule", "(i) index expressions over <=3/4 symbols, <=3 arguments, block counts {1,2,3}, broadcast variants, every output block; non-trivial = "
-            "contraction/broadcast/new-axis involved. (ii) every tree over 7 key-function shapes to depth 2/3 x block-count variants x every subset of fusable predecessors")
+            "contraction/broadcast/new-axis involved. (i-b) the same expressions through the public core blockwise over lazy arrays, every way of letting argument positions share one array. (ii) every tree over 7 key-function shapes to depth 2/3 x block-count variants x every subset of fusable predecessors")
     ctx.sample(dict(index_expression=dict(out="ij", args=["ik", "kj"], blocks=dict(i=2, j=3, k=1))))
     ctx.sample(dict(fusion_tree="list(one2one(a))", fused=["one2one"], term="T('list3', T('list', T('one2one1', T('blk','a',(0,0))), ...))"))
     ctx.assumptions += ["symbolic blocks: every chunk has size 1 and carries a provenance term; the real key functions, fuse/fuse_multiple and get_results_in_different_scope are executed"]
